@@ -273,7 +273,8 @@ static DATE_ALIKE_REGEX: LazyLock<Regex> = LazyLock::new(|| {
 });
 
 fn looks_like_expression(s: &str) -> bool {
-    !s.split(|c: char| !c.is_ascii_alphanumeric()).any(|s| {
+    // `_` is part of a name: `mp3_bitrate+1` is an expression just like `bitrate+1`
+    !s.split(|c: char| !c.is_ascii_alphanumeric() && c != '_').any(|s| {
         Field::from_str(s).is_err() && Function::from_str(s).is_err() && s.parse::<i64>().is_err()
     })
 }
